@@ -150,7 +150,10 @@ def eval_lookalike(env, group):
     t1, t2, t3 = 1614834367, 1546300800, 1700000000      # 2021-03-04 05:06:07, 2019-01-01 00:00:00, 2023-11-14 22:13:20 (UTC)
     stamp = lambda t: time.strftime('%Y-%m-%d %H:%M:%S', time.gmtime(t))
     core.materialise(root, {stamp(t1): F(100, mtime=t2), '100': F(7, mtime=t3), stamp(t2): F(3, mtime=t3), 'zeta': F(50, mtime=t1 + 1), 'alpha': F(100, mtime=t1 - 1),
-                            'sub': D({'x': F(7, mtime=t1), 'y': F(100, mtime=t2), '7': F(1, mtime=t1), 'sub2': D({stamp(t3): F(7, mtime=t1), 'w': F(3, mtime=t3)}, mtime=t2)}, mtime=t3)})
+                            'sub': D({'x': F(7, mtime=t1), 'y': F(100, mtime=t2), '7': F(1, mtime=t1), 'sub2': D({stamp(t3): F(7, mtime=t1), 'w': F(3, mtime=t3)}, mtime=t2)}, mtime=t3),
+                            # a value that is the beginning of another one, which goes on with a control character (lower than any separator)
+                            'notes': F(2, mtime=t2), 'notes\tv2': F(2, mtime=t2), 'notes\x01b': F(2, mtime=t3), 'ab': F(4, mtime=t1), 'ab\x1e': F(4, mtime=t1), 'ab\x1f.x': F(4, mtime=t1),
+                            'ab.x': F(4, mtime=t1)})
     outs = []
     try:
         ents = {}
@@ -158,8 +161,10 @@ def eval_lookalike(env, group):
             for n in dns + fns:
                 p_ = os.path.join(dp, n)
                 st = os.lstat(p_)
-                ents['./' + os.path.relpath(p_, root)] = {'name': n, 'modified': int(st.st_mtime), 'size': st.st_size}
-        for keys in (('modified', 'name'), ('name', 'modified'), ('size', 'name'), ('name', 'size'), ('modified', 'size', 'name'), ('name',), ('modified',)):
+                ents['./' + os.path.relpath(p_, root)] = {'name': n, 'modified': int(st.st_mtime), 'size': st.st_size, 'path': './' + os.path.relpath(p_, root),
+                                                          'ext': n.rsplit('.', 1)[1] if '.' in n[1:] else ''}
+        for keys in (('modified', 'name'), ('name', 'modified'), ('size', 'name'), ('name', 'size'), ('modified', 'size', 'name'), ('name',), ('modified',),
+                     ('name', 'path'), ('name', 'ext'), ('ext', 'name'), ('name', 'ext', 'path')):
             for descs in ([False] * len(keys), [True] * len(keys), [i % 2 == 0 for i in range(len(keys))]):
                 for sel in ('path', 'path, ' + ', '.join(keys)):
                     for mode in ('', ' dfs'):
